@@ -115,3 +115,10 @@ check('C08', 'exploration', 'property-based testing: independent projection (dif
       'bytes it received are re-parsed and compared field by field with a projection of the Python snapshot written from '
       'the .proto field list; every poll and send must carry exactly the configured provider\'s metadata.',
       'Transport below the channel object (HTTP/2, TLS) is not exercised; unencodable text only has to be present.')
+check('C15', 'exploration', 'property-based testing: generated invocation-shaped programs, merged timeline invariant via interposed trace function',
+      'Programs built from recursion, nesting, caught and propagating exceptions, finally and generators carry method/line '
+      'spans and method/line capture snapshots on 1-3 sequential threads; the interposer\'s invocation stack and the '
+      'recording span plugin / push service form one timeline on which every opening must be completed exactly once, in a '
+      'later event, while its invocation is live, on its own thread, with the result of that invocation; nothing may stay '
+      'pending for an ended thread.',
+      'Early completion inside the opening invocation is allowed; three known findings (name-based callback matching), see known_findings.json.')
